@@ -1119,3 +1119,25 @@ Theorem C03_default_reactor_total : forall (invert : bool) (inp : rin) (tpl rc :
 Proof. exact default_reactor_total. Qed.
 Print Assumptions C03_default_reactor_total.
 
+(** no pair ids, no migration: on a graph none of whose atoms carries a pair id _explicit_h changes nothing, whatever the
+    order (rules without h_pairs — inverted templates, inverted prepared rules — move hydrogens as counts) *)
+Theorem C03_explicitH_no_pairs : forall (ord : list N -> list N) (T : its),
+  (forall (k : N) (a : inode), In (k, a) (gnodes T) -> hp_of a = []) -> explicit_h_ord ord T = Some (T, []).
+Proof. exact explicit_h_no_pairs. Qed.
+Print Assumptions C03_explicitH_no_pairs.
+
+(** a SynRule object applied backwards, TOTAL: nothing raises, every script of reads returns the specified values, and
+    its_list is the list of glued graphs (the explicit-hydrogen stage is the identity); with
+    C03_its_list_synrule_object_backward every one of them is an instance of the inverted prepared rule *)
+Theorem C03_synrule_object_backward_total : forall (implicit_temp : bool) (inp : rin) (tpl rc0 : its) (l0 r0 : molg),
+  synrule tpl true = Some (rc0, l0, r0) ->
+  i_rule inp = wrap_template_rule true implicit_temp (rc0, l0, r0) ->
+  (forall (k : N) (a : inode), In (k, a) (gnodes tpl) -> a_el (iH a) = a_el (iG a)) ->
+  wf_rcb tpl = true -> edges_closedb tpl = true ->
+  wf_hostb (i_host inp) = true ->
+  forallb (call_okm (i_host inp) (fst (its_decompose (invert_template rc0)))) (i_calls inp) = true ->
+  nocrash inp /\ (forall ops : list rop, run_ops inp rs0 ops = map (spec_val inp) ops) /\
+  spec_its inp = Some (map fst (spec_glued inp)).
+Proof. exact synrule_object_backward_total. Qed.
+Print Assumptions C03_synrule_object_backward_total.
+
